@@ -1,3 +1,4 @@
+use std::rc::Rc;
 use suiron::*;
 use crate::sexp::{Sexp, Sexp::*, a};
 use crate::conv::*;
@@ -34,6 +35,74 @@ pub fn run_case(c: &Sexp) -> R<Sexp> {
                 _ => return Err(format!("eval: {}", name)),
             };
             Ok(ok(sexp_of_term(&r)))
+        },
+        ("unify", 4) => {
+            let t1 = term_of(&l[1])?;
+            let t2 = term_of(&l[2])?;
+            let ss = ss_of(&l[3])?;
+            let r = t1.unify(&t2, &ss);
+            Ok(ok(sexp_of_opt_ss(&r)))
+        },
+        ("useq", n) if n >= 2 => {
+            let mut pairs: Vec<(Unifiable, Unifiable)> = vec![];
+            for p in &l[2..] {
+                let pl = p.list()?;
+                if pl.len() != 2 { return Err("useq pair".into()); }
+                pairs.push((term_of(&pl[0])?, term_of(&pl[1])?));
+            }
+            let mut ss = ss_of(&l[1])?;
+            for (x, y) in pairs.iter() {
+                // `unify` ties the result's lifetime to its arguments; the pairs outlive the loop.
+                match x.unify(y, &ss) {
+                    Some(s2) => { ss = Rc::new((*s2).clone()); },
+                    None => { return Ok(ok(a("none"))); },
+                }
+            }
+            Ok(ok(L(vec![a("some"), sexp_of_ss(&ss)])))
+        },
+        ("replace", 3) => {
+            let t = term_of(&l[1])?;
+            let ss = ss_of(&l[2])?;
+            Ok(ok(sexp_of_term(&t.replace_variables(&ss))))
+        },
+        ("bip", 4) => {
+            let name = str_of_atom(l[1].atom()?)?;
+            let terms = match &l[2] { A(x) if x == "none" => None, ts => Some(terms_of(ts)?) };
+            let ss = ss_of(&l[3])?;
+            let kb = KnowledgeBase::new();
+            let dummy = Goal::ComplexGoal(Unifiable::SComplex(vec![Unifiable::Atom("verif_dummy".to_string())]));
+            let parent = make_base_node(Rc::new(dummy), &kb);
+            let goal = Goal::BuiltInGoal(BuiltInPredicate::new(name, terms));
+            let node = make_solution_node(Rc::new(goal), &kb, ss, Rc::clone(&parent));
+            let r = next_solution(Rc::clone(&node));
+            let cut = parent.borrow().no_backtracking;
+            Ok(L(vec![a("ok"), sexp_of_opt_ss(&r), a(if cut { "cut" } else { "nocut" })]))
+        },
+        ("mll", 3) => {
+            let vbar = l[1].atom()? == "1";
+            Ok(sexp_of_term(&make_linked_list(vbar, terms_of(&l[2])?)))
+        },
+        ("mlot", 2) => Ok(sexp_of_term(&make_list_of_terms(terms_of(&l[1])?))),
+        ("show", 2) => Ok(A(atom_of_str(&term_of(&l[1])?.to_string()))),
+        ("key", 2) => Ok(ok(A(atom_of_str(&term_of(&l[1])?.key())))),
+        ("rename-term", 3) => {
+            set_var_id(l[1].atom()?.parse::<usize>().map_err(|e| e.to_string())?);
+            let t = term_of(&l[2])?.recreate_variables(&mut VarMap::new());
+            Ok(L(vec![sexp_of_term(&t), A(get_var_id().to_string())]))
+        },
+        ("rename-goal", 3) => {
+            set_var_id(l[1].atom()?.parse::<usize>().map_err(|e| e.to_string())?);
+            let g = goal_of(&l[2])?.recreate_variables(&mut VarMap::new());
+            Ok(ok(L(vec![sexp_of_goal(&g), A(get_var_id().to_string())])))
+        },
+        ("rename-rule", 3) => {
+            set_var_id(l[1].atom()?.parse::<usize>().map_err(|e| e.to_string())?);
+            let r = rule_of(&l[2])?.recreate_variables(&mut VarMap::new());
+            Ok(ok(L(vec![sexp_of_rule(&r), A(get_var_id().to_string())])))
+        },
+        ("make-query", 2) => {
+            let g = make_query(terms_of(&l[1])?);
+            Ok(ok(L(vec![sexp_of_goal(&g), A(get_var_id().to_string())])))
         },
         _ => Err(format!("unknown case: {}", c.to_text())),
     }
